@@ -181,9 +181,9 @@ def ref_target(b, local, depth=0):
 
 class Test:
     """a comparison the body performs on some values: `locals` are the compared temporaries, `places` the places they copy"""
-    __slots__ = ("body", "blk", "locals", "places", "edge", "via", "fail")
+    __slots__ = ("body", "blk", "locals", "places", "edge", "via", "fail", "tail")
 
-    def __init__(self, body, blk, locs, places, edge=None, via=None, fail=None):
+    def __init__(self, body, blk, locs, places, edge=None, via=None, fail=None, tail=False):
         self.body = body
         self.blk = blk          # the block whose terminator branches on the comparison
         self.locals = set(locs)
@@ -191,8 +191,11 @@ class Test:
         self.edge = edge        # (switch block, success target) for a summarised call, None for an inline comparison
         self.via = via          # callee of a summarised call
         self.fail = fail        # successor(s) taken when the test fails, when known
+        self.tail = tail        # a summarised helper whose Result is returned as it is (`helper(..)` in tail position)
 
     def dominates(self, target):
+        if self.tail:
+            return False            # nothing of the body runs after it; it only counts for the Ok return it produces itself
         if self.edge is None:
             return self.blk != target and self.body.dominates(self.blk, target)
         sw, tgt = self.edge
@@ -241,7 +244,7 @@ def _is_result(ty):
 class Summaries:
     """guard summaries of the bodies of a call graph (computed on demand, recursion cut at `depth` helper levels)"""
 
-    def __init__(self, cg, consts=None, depth=2):
+    def __init__(self, cg, consts=None, depth=3):
         self.cg = cg
         self.consts = consts
         self.depth = depth
@@ -275,7 +278,13 @@ class Summaries:
 
     def _result_summary(self, b, depth):
         ok, err = result_exits(b)
-        if not ok or not err:
+        # every other write of the return place may produce Ok as well (`helper(..)` in tail position, a moved Result)
+        for i, blk in enumerate(b.blocks):
+            if blk["cl"] or i in err:
+                continue
+            if any(s["d"][0] == 0 for s in blk["s"]) or (blk["t"]["k"] == "call" and blk["t"]["d"][0] == 0):
+                ok.add(i)
+        if not ok or not err and not any(t.tail for t in self.tests(b, depth - 1)):
             return None
         places = set()
         for t in self.tests(b, depth - 1):
@@ -283,10 +292,10 @@ class Summaries:
             if not pp:
                 continue
             # every Ok return has passed the test ...
-            if not all(t.dominates(o) for o in ok):
+            if not all(t.dominates(o) or (t.tail and t.blk == o) for o in ok):
                 continue
             # ... and one outcome of the test leaves through Err only
-            if t.edge is None:
+            if t.edge is None and not t.tail:
                 succ = b.succ(t.blk)
                 if not any(not (b.reachable_from([s]) & ok) for s in succ):
                     continue
@@ -355,12 +364,16 @@ class Summaries:
                         places.add((a[0], proj))
             if not locs and not places:
                 continue
-            for edge in self._success_edges(b, i, t, sm["kind"]):
+            edges = self.success_edges(b, i, t, sm["kind"])
+            for edge in edges:
                 out.append(Test(b, i, locs, places, edge=edge, via=cal))
+            if not edges and sm["kind"] == "result" and t["d"][0] == 0 and not t["d"][1]:
+                out.append(Test(b, i, locs, places, via=cal, tail=True))
         return out
 
-    def _success_edges(self, b, blk, term, kind):
-        """[(switch block, target taken when the helper succeeded)]"""
+    def success_edges(self, b, blk, term, kind="result"):
+        """[(branching block, target taken when the call succeeded)] for a call that returns a Result: the Continue edge of `?`, the `Ok`
+        arm of a match / if-let on the result, the fall-through of unwrap/expect; for a bool predicate: [(block that branches on it, None)]"""
         out = []
         if kind == "bool":
             sw = switch_on_call_result(b, blk, term)
